@@ -307,9 +307,96 @@ type keptBytes struct {
 	b    []byte
 }
 
+// gateReader: a message whose first Read waits until the gate opens (a slow source): the head handler is busy with it
+type gateReader struct {
+	gate <-chan struct{}
+	data []byte
+	done bool
+}
+
+func (g *gateReader) Read(p []byte) (int, error) {
+	if g.done {
+		return 0, io.EOF
+	}
+	<-g.gate
+	g.done = true
+	return copy(p, g.data), nil
+}
+
+// c14Contend: while another goroutine's message occupies the head handler, a second goroutine writes a message and
+// reuses its storage as soon as Channel.Write has returned; what is transmitted for it must be what it held then.
+func c14Contend(rng *rand.Rand, round int) {
+	for _, mode := range []string{"sync", "async"} {
+		emit("#case c14-contend-%d-%s", round, mode)
+		pl := netty.NewPipeline()
+		tr := mock.NewTransport()
+		var ch netty.Channel
+		if mode == "sync" {
+			ch = netty.NewChannel()(int64(round), context.Background(), pl, tr, goExec{})
+		} else {
+			ch = netty.NewAsyncWriteChannel(16, true)(int64(round), context.Background(), pl, tr, goExec{})
+		}
+		netty.NvAttach(pl, ch)
+		gate := make(chan struct{})
+		first := bytes.Repeat([]byte{'A'}, 10)
+		aDone := make(chan struct{})
+		go func() { defer close(aDone); ch.Write(&gateReader{gate: gate, data: first}) }()
+		time.Sleep(2 * time.Millisecond) // the first message now holds the head handler
+		want := randPayload(rng, 1+rng.Intn(64))
+		for i := range want {
+			if want[i] == 'A' || want[i] == 0xEE {
+				want[i] = 'b'
+			}
+		}
+		var msg netty.Message
+		kind := rng.Intn(3)
+		buf := append([]byte(nil), want...)
+		switch kind {
+		case 0:
+			msg = buf
+		case 1:
+			h := len(buf) / 2
+			msg = [][]byte{buf[:h], buf[h:]}
+		default:
+			msg = bytes.NewBuffer(buf)
+		}
+		bDone := make(chan struct{})
+		go func() {
+			defer close(bDone)
+			ch.Write(msg)
+			for i := range buf { // the caller reuses its storage right after Write has returned
+				buf[i] = 0xEE
+			}
+		}()
+		time.Sleep(2 * time.Millisecond)
+		close(gate)
+		<-aDone
+		select {
+		case <-bDone:
+		case <-time.After(2 * time.Second):
+		}
+		deadline := time.Now().Add(2 * time.Second)
+		for (netty.NvQueueLen(ch) > 0 || netty.NvSenderRunning(ch)) && time.Now().Before(deadline) {
+			time.Sleep(50 * time.Microsecond)
+		}
+		time.Sleep(time.Millisecond)
+		var got []byte
+		for _, b := range tr.Written() {
+			if b != 'A' {
+				got = append(got, b)
+			}
+		}
+		emit("C14 contend %s %s", hexOrDash(want), hexOrDash(got))
+		ch.Close(nil)
+	}
+}
+
 func runC14(seed int64, count int) {
 	var kept []keptBytes
 	rng := rand.New(rand.NewSource(seed))
+	for round := 0; round < 3; round++ {
+		c14Contend(rng, round)
+	}
 	for cs := 0; cs < count; cs++ {
 		spec, mk := genMsg(rng)
 		emit("#case c14-%d", cs)
